@@ -377,6 +377,9 @@ fn directed_runs(quick: bool, vios: &mut VioSet) -> Vec<serde_json::Value> {
         ("tiny-data-padded-255-large-window", vec![Ev::DataPad(1, 255)], false, true),
         ("small-data-padded-large-window", vec![Ev::DataPad(100, 200)], false, true),
         ("padding-only-data-large-window", vec![Ev::DataPad(0, 255)], false, true),
+        // the other side of the DATA-frame budget: an application that reads every frame at once gives the budget back, so a
+        // peer that sends any number of tiny frames is never penalised
+        ("tiny-data-read-at-once-large-window", vec![Ev::Data(1)], false, true),
         ("ping-flood-writes-blocked", vec![Ev::Ping], true, true),
         ("settings-flood-writes-blocked", vec![Ev::Settings], true, true),
         // the transport takes a few partial writes and then stalls for good (a reader that falls asleep), 50 PINGs per round
@@ -453,6 +456,26 @@ fn directed_runs(quick: bool, vios: &mut VioSet) -> Vec<serde_json::Value> {
                 apply_peer(&mut t, &mut w, e);
             }
             t.drive(100);
+            if name.contains("read-at-once") {
+                let f = Flag::new(false);
+                let wk = waker_of(&f);
+                let mut cx = Context::from_waker(&wk);
+                let mut panics = vec![];
+                for a in t.accepted.iter_mut() {
+                    if let Some(b) = a.body.as_mut() {
+                        for _ in 0..100 {
+                            match guarded(&mut panics, "poll_data", || b.poll_data(&mut cx)) {
+                                Some(Poll::Ready(Some(Ok(d)))) => {
+                                    let _ = b.flow_control().release_capacity(d.len());
+                                }
+                                _ => break,
+                            }
+                        }
+                    }
+                }
+                t.panics.extend(panics);
+                t.drive(100);
+            }
             if name.contains("oversized") && !t.accepted.is_empty() && r < 3 {
                 vios.add(Violation { rule: "C18.oversized-headers-accepted".into(), signature: name.to_string(), what: format!("attack loop '{}': a request with a header list far above the advertised limit of {} was handed to the application", name, LIMITS.header_list), replay: json!({"harness": "c18.directed", "loop": name}) });
             }
@@ -525,6 +548,11 @@ fn directed_runs(quick: bool, vios: &mut VioSet) -> Vec<serde_json::Value> {
                         vios.add(Violation { rule: "C18.replies-unbounded-while-blocked".into(), signature: format!("{}:owed", name), what: format!("attack loop '{}': the transport has stalled, yet the endpoint has read {} octets of PINGs and written {} octets: it owes {} octets of replies (its write buffer is meant to hold about 16 KiB)", name, read, written, owed), replay: replay.clone() });
                     }
                 }
+            }
+        }
+        if name.contains("read-at-once") {
+            if let Some(r) = ended_at {
+                vios.add(Violation { rule: "C18.legal-traffic-penalised".into(), signature: name.to_string(), what: format!("attack loop '{}': the peer stayed inside its windows and the application read every DATA frame at once, yet the connection ended after {} rounds: {:?}, GOAWAY {:?}", name, r, t.conn_result, t.goaway_sent()), replay: replay.clone() });
             }
         }
         for p in t.panics.clone() {
